@@ -11,8 +11,11 @@ import (
 
 func (u *UseCase) Commit(ctx context.Context) error {
 	txId := model.GetTxId(ctx)
+
+	u.endM.Lock()
 	tx, err := u.txRepo.Delete(ctx, txId)
 	if err != nil {
+		u.endM.Unlock()
 		return fmt.Errorf("tx repository delete: %w", err)
 	}
 
@@ -26,6 +29,7 @@ func (u *UseCase) Commit(ctx context.Context) error {
 	}
 
 	deleteFiles, err := u.fRepo.UpdateTx(ctx, txId, model.MainTxId, filter)
+	u.endM.Unlock()
 	if len(deleteFiles) > 0 {
 		u.cleaner.DeleteFilesAsync(ctx, deleteFiles)
 	}
